@@ -502,6 +502,17 @@ def e_inject_slices(ctx, s):
                               lambda lv: same(frozenset(ident_leaves(b, lv)), a_id))
         # any Lt(i, last_end)-false edge guarding the site
         if not (cut and C.guarded(b, s.bb, cut)):
+            # the overlap test may live in a separate selection pass over other variables (`if start >= next_free { .. picked.push }`):
+            # an ordering test between a found position and an end-of-previous accumulator exists, but that it governs THIS slice is
+            # a value-level fact -> no verdict.  No such test at all (the guard was dropped) stays undischarged.
+            is_pos = lambda lv: bool(lv) and all(l.kind == "call" and (C.callee_name(l.data) == FIND or C.callee_name(l.data).endswith("Iterator>::next"))
+                                                 or l.kind == "field" for l in lv)
+            is_acc = lambda lv: bool(lv) and any(l.kind == "binop" and l.data["op"].startswith("Add") for l in lv) and \
+                all((l.kind == "const" and C.op_const(l.data) == "0_usize") or (l.kind == "binop" and l.data["op"].startswith("Add")) for l in lv)
+            sel = cmp_holds_edges(b, s.prog, "ge", is_pos, is_acc)
+            if sel:
+                return "UNVERIFIED: the slice bounds are found positions / (position + length) and an overlap test `pos >= end_of_previous` " \
+                       "exists, but in a separate selection pass; that it orders these bounds is not decided structurally"
             return None
     return "last_end is 0 or (find index + key length); sorted positions with the overlap `continue` keep last_end <= i"
 
@@ -629,10 +640,14 @@ def e_line_ending_buf(ctx, s):
     cb, cbb, t = cs[0]
     # len derives from read_until via and_then(closure) ... accept: leaves include and_then / read_until
     names = set()
+    len_of_buf = False
     for l in C.trace(cb, t["args"][1], through_decorators=True):
         if l.kind == "call":
             names.add(C.callee_name(l.data))
-    if not names & {"std::result::Result::<T, E>::and_then", "std::io::BufRead::read_until"}:
+            # `f(&buf, buf.len())`: every index below len is in bounds whatever the buffer holds
+            if C.callee_name(l.data) in LEN_FNS and same(ident(cb, l.data["args"][0]), ident(cb, t["args"][0])):
+                len_of_buf = True
+    if not len_of_buf and not names & {"std::result::Result::<T, E>::and_then", "std::io::BufRead::read_until"}:
         return None
     # the site's index is relative to the `len` parameter and sits in the matching arm of the switch on len
     b = s.b
@@ -870,7 +885,9 @@ def r18_1(ctx):
             ctx.violation([s.b.name, "fnitem", s.what], "may-panic function %s passed as a value (e.g. .map(Option::unwrap)): cannot be discharged" % s.what, site=site)
             continue
         why = discharge(ctx, s)
-        if why:
+        if why and "UNVERIFIED:" in why:
+            ctx.unverified("|".join(site_key(s)), site=site, detail=why.split("UNVERIFIED:", 1)[1].strip())
+        elif why:
             ctx.ok("|".join(site_key(s)), site=site, detail=why)
         elif str_index_bounded_only(ctx, s):
             ctx.unverified("|".join(site_key(s)), site=site, detail=str_index_bounded_only(ctx, s))
